@@ -345,12 +345,26 @@ Proof. split; [reflexivity|cbn; lia]. Qed.
 Theorem putfile_contained : forall cwd base name blocks oc ops o p, wf_base base ->
   putfile cwd base name blocks oc = Some ops -> In o ops -> In p (touched o) -> inside base p.
 Proof.
-  intros cwd base name blocks oc ops o p Hb H Ho Hp. unfold putfile in H.
+  intros cwd base name blocks oc ops o p Hb H Ho Hp. unfold putfile, putfile_final in H.
+  destruct (existsb (str_eqb name) putfile_refused); [discriminate|].
   assert (Eg : putfile_guard = GuardParentEq) by reflexivity. rewrite Eg in H.
   destruct (guarded GuardParentEq cwd base name) as [final|] eqn:Hg; [|discriminate]. injection H as <-.
   pose proof (guarded_inside _ _ _ _ Hb Hg) as Hin.
   destruct (upload_touches_only_tmp_and_final final blocks oc o p Ho Hp) as [->| ->]; [exact Hin|].
   destruct putfile_ext_facts. apply inside_ext; assumption.
+Qed.
+
+(* honest names (one good component) are served under their own name: an up-front literal refusal, if the code has one,
+   refuses no such name *)
+Theorem putfile_serves_good : forall cwd base c, wf_base base -> goodb c = true ->
+  putfile_final cwd base c = Some (base ++ sep :: c).
+Proof.
+  intros cwd base c Hb Hc. unfold putfile_final.
+  assert (Hr : forallb (fun n => negb (goodb n)) putfile_refused = true) by reflexivity.
+  destruct (existsb (str_eqb c) putfile_refused) eqn:E.
+  - apply existsb_exists in E. destruct E as (n & Hn & En). apply str_eqb_eq in En. subst n.
+    rewrite forallb_forall in Hr. apply Hr in Hn. rewrite Hc in Hn. discriminate.
+  - apply guarded_accepts_good; assumption.
 Qed.
 
 (* ---------- upload: atomic publication, no symlink is followed, nothing else changes ---------- *)
